@@ -399,6 +399,7 @@ type verifC13rig struct {
 	db    *DB
 	ci    *verifC13ci
 	clock int64
+	stall bool // coarse clock: further readings return the last tick again
 }
 
 // verifC13addr: concrete, pairwise distinct 32-byte addresses (first byte i+1,
@@ -435,9 +436,12 @@ func verifC13open(kv *verifC13kv, capacity uint64) (*DB, error) {
 
 func verifC13newRig(capacity uint64) *verifC13rig {
 	r := &verifC13rig{kv: &verifC13kv{}, ci: &verifC13ci{}}
-	// harness clock: strictly increasing concrete ticks
+	// harness clock: concrete ticks, strictly increasing until the harness
+	// stalls it (a coarse clock returns the same instant for a while)
 	now = func() int64 {
-		r.clock++
+		if !r.stall {
+			r.clock++
+		}
 		return r.clock
 	}
 	db, err := verifC13open(r.kv, capacity)
